@@ -1,6 +1,7 @@
 """Constants and their defining relations (DESIGN §4.E), Frobenius maps as scalar-linear maps, generators.
 
 All arithmetic here is the analyser's own (Python integers) on literals read from the MIR / rustc const evaluation."""
+import re
 from core.report import Rule
 from core.facts import FactsError
 from core.terms import strip, alts, walk, show, expand_call, same_file
@@ -49,12 +50,25 @@ class Lits:
                 return bytes.fromhex(k["bytes_hex"])
         return None
 
+    def _u256_is_limbs(self):
+        adt = self.F.adts.get("crate::u256::U256") or {}
+        fs = (adt.get("variants") or [{}])[0].get("fields") or []
+        return adt.get("kind") == "Struct" and len(fs) == 1 and re.fullmatch(r"ark_ff::(biginteger::)?BigInt<4>|\[u64; 4\]", fs[0].get("ty", "").strip()) is not None
+
     def u256(self, t):
         """integer of a U256 literal: U256::from([l0..l3]) with literal limbs or with a `const [u64; 4]` item"""
         v = literal_u256(t)
         if v is not None:
             return v
         t = strip(t)
+        if t[0] == "const" and isinstance(t[1], dict) and "uneval_def" in t[1] and "promoted" not in t[1]:
+            # a `const X: U256` item evaluated by the compiler: the integer is a single-field wrapper chain around four u64 limbs,
+            # so its 32 bytes are the limbs, least significant first
+            c = self.F.consts.get(t[1]["uneval_def"])
+            if c and c.get("ty", "").strip() == "crate::u256::U256" and "bytes_hex" in c and self._u256_is_limbs():
+                b = bytes.fromhex(c["bytes_hex"])
+                if len(b) == 32:
+                    return int.from_bytes(b, "little")
         if t[0] == "call" and t[1].name in ("from", "into") and len(t[2]) == 1:
             a = strip(t[2][0])
             if a[0] == "const" and "uneval_def" in a[1] and "promoted" not in a[1]:
